@@ -203,6 +203,9 @@ def replay(pid, payload, seed):
                       "failing_input_found": bool(why)})
             return ("replay", "replayed case still fails", p)
         return None
+    if payload.get("engine") == "orderstress":
+        out = eng_orderstress(Ctx(pid, "quick", seed, {"evaluations": 0, "distinct": set(), "samples": [], "streams": {}, "traces": 0}))
+        return out[0] if out else None
     if payload.get("engine") == "racestress":
         out = eng_racestress(Ctx(pid, "quick", seed, {"evaluations": 0, "distinct": set(), "samples": [], "streams": {}, "traces": 0}))
         return out[0] if out else None
@@ -369,7 +372,7 @@ def eng_control_random(mon, triggers, relevant=CTL_OPS | DATA_OPS, nq=250, nt=60
 def eng_deadline_probes(mods, mon, tag):
     def eng(ctx):
         phases = list(range(0, 100, 7)) + [99] if not ctx.thorough else list(range(100))
-        cases = seeded(gen.deadline_probe_cases(phases, ackdls=(0, 11) if not ctx.thorough else (0, 10, 11, 15, 600),
+        cases = seeded(gen.deadline_probe_cases(phases, ackdls=(0, 5, 11) if not ctx.thorough else (0, 1, 5, 9, 10, 11, 15, 600),
                                                 mods=mods, prefix=tag,
                                                 gaps=(40, 70) if not ctx.thorough else (10, 40, 70, 95)))
         return ctx.seq(tag, cases, relevant=DATA_OPS, triggers={"PULL"}, monitor=mon)
@@ -462,7 +465,13 @@ def eng_capacity(ctx):
     maxes = [1, 2, 1000, 1001, 65535, 65536, 65537, 131072, 2147483647]
     if ctx.thorough:
         maxes += [3, 999, 5000, 196608, 0, -1]
-    cases = seeded(gen.capacity_cases(backlogs, maxes))
+    # the extracted model handles a batch of n messages in O(n^2) (sorted association lists): backlogs beyond the
+    # 16-bit range meet only the limits that keep the batch small, plus one full 65535-message batch
+    small = [b for b in backlogs if b < 60000]
+    cases = seeded(gen.capacity_cases(small, maxes))
+    if ctx.thorough:
+        cases += seeded(gen.capacity_cases([b for b in backlogs if b >= 60000], [1, 2, 65536, 65537, 131072, 196608, 0]))
+        cases += seeded(gen.capacity_cases([65541], [65535], prefix="capfull"))
     if not ctx.thorough:
         # one backlog larger than the 16-bit range in the quick tier too: a limit that wraps to 0 must not release it
         cases += seeded(gen.capacity_cases([65540], [65536], prefix="capx"))
@@ -595,9 +604,16 @@ reg("C05", [eng_id_lists(M.mon_deadline, ("nack", "mod")), eng_deadline_pure, en
                "rejects the whole request and changes nothing (unary and streaming). " + SEQ_NOTE,
     level_note="As C04 for time.")
 
-reg("C09", [eng_codec_pure, eng_payload, eng_data_random(M.mon_payload, {"PULL"}, streams=True, tag="data-stream-random")],
+def eng_push_late(ctx):
+    return eng_push(ctx)
+
+
+reg("C09", [eng_codec_pure, eng_payload, eng_data_random(M.mon_payload, {"PULL"}, streams=True, tag="data-stream-random"),
+            eng_push_late],
     rule="codec-pure: MessageId::new on boundary and random (tid, counter) pairs; payload: binary/empty/5 kB data, "
-         "non-ASCII and empty attribute keys, two subscriptions, nack and expiry redelivery, topic delete + re-create. "
+         "non-ASCII and empty attribute keys, two subscriptions, nack and expiry redelivery, topic delete + re-create; "
+         "push: the HTTP push body (base64 data incl. bytes that map to the base64 digits 62/63, attributes, id) as "
+         "received by the scripted endpoint. "
          "non-trivial = a delivery happened",
     monitor=M.mon_payload, title="Messages are delivered intact with a stable, globally unique identity", design_ref="7/C09",
     technique="Coq: records are moved never rebuilt (membership theorems), base64 round trip, injectivity of the id; "
@@ -694,9 +710,12 @@ def mon_c01(ops, lines):
 def eng_capacity_drain(ctx):
     """Large backlogs against large and small batch limits, each followed by a full drain (nothing may be lost
     whatever the batch sizes were)."""
-    backlogs = [999, 1000, 1001, 1500] if not ctx.thorough else [999, 1000, 1001, 1500, 2500, 65535, 65541]
+    backlogs = [999, 1000, 1001, 1500] if not ctx.thorough else [999, 1000, 1001, 1500, 2500, 5000]
     maxes = [1, 1000, 1001, 1400, 65535, 65537, 2147483647]
     cases = seeded(gen.capacity_cases(backlogs, maxes, prefix="capd", drain=True))
+    if ctx.thorough:
+        # one backlog beyond the 16-bit range (batches of ~1000: the model is quadratic in the batch size)
+        cases += seeded(gen.capacity_cases([65541], [1001, 65537], prefix="capdx", drain=True))
     out = ctx.seq("capacity-drain", cases, relevant={"PULL", "STATS", "PUB", "PUBN"}, triggers={"PULL"}, monitor=mon_c01,
                   always_monitor=True)
     if out:
@@ -1174,6 +1193,31 @@ reg("C07", [eng_burst, eng_abandon],
                "fairness of the tokio scheduler (an enabled step is eventually taken) is assumed, not modelled.")
 
 
+def eng_orderstress(ctx):
+    """Multi-thread runtime: concurrent publishers to one topic with two subscriptions, each round drained; ids per
+    Publish and first-delivery order are checked by the harness itself (harness/src/orderstress.rs).  A stress
+    search: it can only find."""
+    n = ctx.n(20000, 400000)
+    p = sh([HARNESS, "orderstress", str(n), "4"], check=False, timeout=3000)
+    m = re.search(r"ORDERSTRESS rounds=(\d+) publishes=(\d+) bad_ids=(\d+) inversions=(\d+)", p.stdout or "")
+    st = ctx.stats
+    st["evaluations"] += n
+    st["streams"]["orderstress"] = {"cases": n, "publishes": int(m.group(2)) if m else None,
+                                    "bad_ids": int(m.group(3)) if m else None, "inversions": int(m.group(4)) if m else None}
+    if not m:
+        return [("engine", "orderstress did not finish", {"output": (p.stdout or "")[-2000:], "signature": "engine:orderstress"})]
+    st["distinct"].add("orderstress")
+    if int(m.group(3)) > 0 or int(m.group(4)) > 0:
+        why = ("C08-order-concurrent: with concurrent publishers on the multi-thread runtime %s Publish calls got ids that "
+               "are not one-per-message consecutive and %s drains saw first deliveries out of publish order (of %s rounds)"
+               % (m.group(3), m.group(4), m.group(1)))
+        return [("violation", "orderstress: " + why,
+                 {"engine": "orderstress", "failing_input_found": True, "monitor": why, "signature": "monitor:C08-order-concurrent",
+                  "replay_cmd": ".cache/target/release/harness orderstress %d 4" % n, "output": (p.stdout or "")[-3000:],
+                  "broken": "stress search on the implementation (multi-thread runtime)"})]
+    return []
+
+
 def eng_concurrent_publish(ctx):
     cases = gen.concurrent_publish_cases(range(ctx.n(150, 3000)))
     return ctx.seq("concurrent-publish", cases, relevant={"JOIN", "PUB", "SO", "CS", "CT"}, triggers={"JOIN", "PULL", "SR"},
@@ -1182,11 +1226,13 @@ def eng_concurrent_publish(ctx):
 
 reg("C08", [eng_data_random(M.mon_order, {"PUB"}, streams=True, tag="data-stream-random"),
             eng_data_enum(M.mon_order, {"PUB"}), eng_concurrent_publish,
-            eng_wait_random(M.mon_order, {"PUB"})],
+            eng_wait_random(M.mon_order, {"PUB"}), eng_orderstress],
     rule="random and exhaustive sequential scripts (ids, first deliveries, redeliveries out of order); "
          "concurrent-publish: 2-6 Publish calls to one topic started without letting the runtime settle (seeded), two "
          "subscriptions, one stream and pulls of several sizes, a nack in between - ids and first-delivery order are "
-         "read off the implementation's answers on every case. non-trivial = a Publish answered with ids",
+         "read off the implementation's answers on every case; orderstress: the same on the multi-thread runtime "
+         "(20 000 / 400 000 rounds of 2-6 concurrent publishers, two subscriptions, full drain per round). "
+         "non-trivial = a Publish answered with ids",
     monitor=M.mon_order, title="Publish order is delivery order; message IDs are issued in order", design_ref="7/C08",
     technique="Coq: per-batch id arithmetic; first deliveries form a prefix of the posted sequence, by induction over all "
               "turn sequences with a ghost set of delivered ids; differential correspondence + order monitor under "
